@@ -394,6 +394,11 @@ def run(ctx):
     ctx.do(r2_2)
     ctx.do(r2_3)
     ctx.do(r2_4)
+    from . import c03, c05, c13
+    ctx.do(c03.r3_1_2)
+    ctx.do(c03.r3_5)
+    ctx.do(c05.r5_6)
+    ctx.do(c13.r13_5)
     for k, v in NEXT_UID_WRITERS.items():
         ctx.trust(f"frozen next_uid writer: {k} - {v}")
     for k, v in COMMIT_EXEMPT.items():
